@@ -893,7 +893,9 @@ def S.initSession (s : S) (clientID : Bytes) (cfg : Cfg) : S × Option Err :=
 
 /-- `AdoptSession` (request.go:819-979) on the current store; the previous client is abandoned -/
 def S.adoptSession (s : S) (cfg : Cfg) : S × Except Err (List Warn) :=
-  let s := { s with noClient := true, parked := false, waiters := [], txs := [], ping := none }
+  -- the process stops: its connection dies with it
+  let s := { s with noClient := true, parked := false, waiters := [], txs := [], ping := none, conn := none,
+                    readConn := false, hadConn := false, link := .pending }
   if cfg.valid.isSome then (s, .error (mkErr ["deny"])) else
   let outboundKeys := s.core.store.sortedKeys.filter fun k => !(k == Facts.clientIDKey || k / Facts.remoteIDKeyFlag % 2 == 1)
   if s.fLoad && !outboundKeys.isEmpty then ({ s with fLoad := false }, .error (mkErr ["store"])) else
